@@ -1,7 +1,10 @@
 """C12 — no transaction or pre-execution request can crash the node (NeoVM part: bytecode, syscalls, native arguments)."""
 import json
 
+import concurrent.futures
+
 import _neovm as nv
+import _neovm_interop as ni
 import vf
 
 DEAD = ("crash", "stack-overflow", "oom", "timeout")
@@ -128,6 +131,9 @@ def native_call(rng):
 
 
 def run(ctx):
+    # ---- interop handles (spec/NeoVMInterop.tla): its two TLC runs and its replay run beside the rest of the check
+    pool = concurrent.futures.ThreadPoolExecutor(max_workers=2)
+    fut_mc = pool.submit(ni.model_check, ctx)
     # ---- the model: totality of the consuming operations on every heap (design), and the as-coded predictions
     fams = [("nc2", "NeoVM_C14.cfg", {"WithMutations": "FALSE"}), ("chain", "NeoVM_C15.cfg", {"NC": "13" if ctx.thorough else "11", "HeapMode": '"chain"', "ChainLens": "{9, 10, 11, 12, 13}" if ctx.thorough else "{10, 11}"})]
     if ctx.thorough:
@@ -145,7 +151,9 @@ def run(ctx):
             rows.setdefault(vf.canon(h["cells"]), h)
     binary = ctx.go_test_bin("smartcontract/test", harness="b_neovm_sc")
     if not rows or not binary:
+        fut_mc.result()
         return finish(ctx, stats, 0, {})
+    fut_interop = pool.submit(lambda: ni.check(ctx, binary, 1, fut_mc.result()))
     allrows = sorted(rows.values(), key=lambda r: vf.canon(r["cells"]))
 
     # ---- programs
@@ -156,7 +164,7 @@ def run(ctx):
             progs.append({"fam": fam, "cls": cls, "hex": code.hex(), "preexec": pre, "pred": pred, "meta": meta})
     if ctx.replay_in:
         rp = json.load(open(ctx.replay_in))["replay"]
-        for p in rp["programs"]:
+        for p in rp.get("programs", []):
             progs.append({"fam": p.get("fam", "replay"), "cls": p.get("cls", "replay"), "hex": p["hex"], "preexec": p.get("preexec", False), "pred": "single", "meta": None})
     else:
         for r in allrows:
@@ -233,7 +241,6 @@ def run(ctx):
     singles = [p for p in progs if p["pred"] == "single"]
     res2 = []
     deaths2 = 0
-    import concurrent.futures
     with concurrent.futures.ThreadPoolExecutor(max_workers=min(nproc, 6)) as ex:
         futs = [ex.submit(nv.run_child, ctx, binary, "TestVerifPrograms", [item(p)], "single%d" % p["id"], 150, 4, "items", None, "run") for p in picked + singles]
         for f in futs:
@@ -304,6 +311,7 @@ def run(ctx):
         ctx.violation(key, "program %s (%s, %s, %s mode, gas limit %d) -> %s: %s; %d program(s) of this class"
                       % (p["hex"][:120], p["fam"], p["meta"] or p["cls"], "pre-execution" if p["preexec"] else "transaction", GAS, o["out"], (o.get("err") or "")[:200], len(viol[key])),
                       {"programs": [{"hex": x[0]["hex"], "preexec": x[0]["preexec"], "fam": x[0]["fam"], "cls": x[0]["cls"]} for x in viol[key][:5]]})
+    interop = fut_interop.result()
     answered = {o["id"] for o in res + res2}
     expected = {it["id"] for it in fast} | {p["id"] for p in picked + singles} | {it["id"] for it in rest}
     if expected - answered:
@@ -317,7 +325,8 @@ def run(ctx):
     for key in list(viol)[:3]:
         p, o = viol[key][0]
         ctx.samples.append({"finding": key, "program": p["hex"][:300], "outcome": o["out"]})
-    return finish(ctx, stats, len(answered), {
+    return finish(ctx, stats, len(answered) + interop.get("executed", 0), {
+        "interop_handles": interop,
         "programs": len(progs), "programs_executed": len(answered), "families": fam_counts, "halt": n_ok, "fault": n_fault,
         "child_deaths": deaths + deaths2 + scen_deaths, "native_scenario_steps": len(scen) + cd_steps, "held_back_programs_run": len(rest), "gas_limit": GAS,
         "finding_classes": {k: len(v) for k, v in viol.items()},
@@ -333,4 +342,8 @@ def finish(ctx, stats, n, extra):
         "syscalls into runtime/storage/native contracts on an empty in-memory ledger state; EVM bytecode and WASM are not exercised",
         "a program counts as hanging when one run produces no result for 150 s wall clock (180 s inside a batch) (the same programs need < 1 s when they fault properly)",
         "programs on which the as-coded model predicts a fatal run are sampled per structural class (each costs a process)",
+        "interop handles (spec/NeoVMInterop.tla): one handle on the stack at a time; targets = one stored block / transaction / contract, one "
+        "contract deployed and destroyed inside the script, absent heights / hashes / addresses; real ledger with genesis + 1 block; the legacy "
+        "syscall table is reached by running with the main-network id below CONTRACT_DEPRECATE_API_HEIGHT; a Go panic is caught by the harness "
+        "(outside the code under test) and counted as the death of the node, because nothing recovers on the node's execution paths",
     ])
